@@ -448,7 +448,8 @@ class Interp:
         while True:
             if not self.path.branch(z3.Length(s.z) > n):
                 return
-            yield mk_str(z3.SubString(s.z, n, 1))
+            ch = z3.SubString(s.z, n, 1)
+            yield SStr(ch, code=z3.StrToCode(ch))
             n += 1
             if n > self.max_unroll:
                 self.unsupported("symbolic string loop without invariant", node)
@@ -1034,6 +1035,11 @@ class Interp:
                     for _ in range(max(n, 0)):
                         out = z3.Concat(out, zs(s))
                     return mk_str(out)
+                # CPython: a repetition count that does not fit an index raises OverflowError, a huge result MemoryError
+                self.guard(mk_bool(zi(n) < 2 ** 63), "OverflowError", node, "cannot fit 'int' into an index-sized integer")
+                if self.path.choose(2) == 1:
+                    self.path.assume(zi(n) > 1)
+                    self.throw("MemoryError", "", node)
                 f = z3.Function("str_repeat", z3.StringSort(), z3.IntSort(), z3.StringSort())
                 r = f(zs(s), zi(n))
                 self.path.assume(z3.Implies(zi(n) <= 0, r == z3.StringVal("")), check=False)
@@ -1042,7 +1048,21 @@ class Interp:
             if isinstance(a, PList) and is_intlike(b):
                 if isinstance(b, int) and not a.is_sym():
                     return PList(list(a.items) * b)
-                self.unsupported("list repetition symbolic", node)
+                self.guard(mk_bool(zi(b) < 2 ** 63), "OverflowError", node, "cannot fit 'int' into an index-sized integer")
+                if self.path.choose(2) == 1:
+                    self.path.assume(zi(b) > 1)
+                    self.throw("MemoryError", "", node)
+                if not a.is_sym() and len(a.items) == 0:
+                    return PList([])
+                if not a.is_sym() and any(isinstance(x, HeapObj) for x in a.items):
+                    r = PList(sym=z3.Const(self.fresh("rep"), z3.SeqSort(z3.IntSort())), kind="any")
+                    self.path.assume(z3.Implies(zi(b) <= 0, z3.Length(r.sym) == 0), check=False)
+                    return r
+                sa = self.list_seq(a, a.kind, node)
+                r = PList(sym=z3.Const(self.fresh("rep"), sa.sort()), kind=a.kind)
+                self.path.assume(z3.Implies(zi(b) <= 0, z3.Length(r.sym) == 0), check=False)
+                self.path.assume(z3.Implies(zi(b) == 1, r.sym == sa), check=False)
+                return r
         if t is ast.BitOr and isinstance(a, PSet) and isinstance(b, PSet):
             out = PSet(list(a.items))
             for x in b.items:
@@ -1140,6 +1160,11 @@ class Interp:
                 r = self.exact_int_float(ei)
                 if r is not None:
                     return r
+        for v in (a, b):
+            if isinstance(v, SInt):
+                # CPython converts the int operand to a double first: OverflowError beyond the double range
+                lim = z3.IntVal(2 ** 1024)
+                self.guard(mk_bool(z3.And(v.z < lim, v.z > -lim)), "OverflowError", node, "int too large to convert to float")
         x, y = zr(a), zr(b)
         piv = [p for p in (self.int_term(a), self.int_term(b)) if p is not None]
         piv = [p for p in piv if not self.path.feasible(z3.Not(z3.And(p <= TWO53, p >= -TWO53)))]
@@ -1268,6 +1293,8 @@ class Interp:
         if is_strlike(a) and is_strlike(b):
             if _native(a) and _native(b):
                 return _PYCMP[t](a, b)
+            if getattr(a, "opaque", False) or getattr(b, "opaque", False):
+                return self.fresh_bool("opaque_cmp")
             x, y = zs(a), zs(b)
             if t is ast.Lt:
                 return mk_bool(x < y)
@@ -1345,6 +1372,9 @@ class Interp:
             self.world.check_hashable(self, k, node)
 
     def dict_find(self, d, key, node):
+        lazy = getattr(d, "lazy", None)
+        if lazy is not None:
+            lazy(self, key)
         self.check_hashable(key, node)
         for ent in d.entries:
             if self.truth(self.key_eq(ent[0], key, node)):
